@@ -660,7 +660,8 @@ func (s *state) judgeRound(c *caseSpec, ri int, rr *roundResult, exact bool) boo
 	if len(rr.Opens) >= 8 {
 		r.Count("rounds_with_8_or_more_concurrent_opens", 1)
 	}
-	// distinct non-trivial triples
+	// distinct non-trivial triples; every judged open is one evaluation (a case is a container of opens)
+	r.Eval(len(rr.Opens))
 	for _, o := range rr.Opens {
 		sup := tab.supported(o.Req)
 		plain := !o.optimistic() && o.ok() && len(tab.removed) == 0 && len(tab.acceptable(o.ProtoAtReturn)) == 1 && o.ProtoAtReturn == o.Req[0]
@@ -718,7 +719,7 @@ func TestC07(t *testing.T) {
 			return
 		}
 		res := s.runCase(c)
-		r.Eval(1)
+		r.Count("cases", 1)
 		if r.BubbleFailed(res.Bubble, "bubble", c.ID, "goroutines of the two hosts never finished", map[string]any{"case": c, "result": res}) {
 			return
 		}
